@@ -24,4 +24,13 @@ BugDropPartial == {"droppartial"}
 BugNoStripCR == {"nostripcr"}
 BugEmptyBreak == {"emptybreak"}
 BugEofTail == {"eoftail"}
+BugDrainFull == {"drainfull"}
+BugArgvStale == {"argvstale"}
+\*   '5' 'N' SP LF: ids 0 (no digits), 5, 55 ...; one-letter words
+Sigma4b == {53, 78, 32, 10}
+\* clients that have a request: id 0 (a line without a number) and 5 / only 0 (so that "5..." is an unknown id)
+\* streams that end with a line terminator (an unterminated tail adds nothing to what argv[] goes through)
+LFStreams == {s \in AllStreams : s = <<>> \/ s[Len(s)] = 10}
+Live05 == {0, 5}
+Live0 == {0}
 =============================================================================
